@@ -1815,8 +1815,13 @@ class Compiler:
             # its own current token and records a failure like a macro
             # and writes to the stream that it is given (inside a
             # translation block of the macro that is not the main one).
+            # Its conversion functions refer to its own translation
+            # settings (domain, context, target language).
             body = template("__append = __stream.append") + \
-                template("__token = None") + self._record_error(
+                template("__token = None") + \
+                emit_func_convert("__convert") + \
+                emit_func_convert_and_escape("__quote") + \
+                self._record_error(
                     self.visit_Context(slot) or [ast.Pass()]
                 )
 
